@@ -272,6 +272,109 @@ theorem C02_order_independent (s : Sys) (a : Acc) (c1 c2 : Cqe) (i j : Nat) (hij
   cases hs1 : fSkip c1.flags <;> cases hs2 : fSkip c2.flags <;> simp
   exact updOps_comm s.ops i j c1 c2 hij
 
+/-! ### Whole batches: an operation's state is a function of its own completions, in order -/
+
+/-- The state of one operation after one of its own completions (`Shared::update`; a completion
+the state machine rejects leaves the state as it is — and sets the `panicked` flag, see
+`C02_system_no_stray_completion`). -/
+def upd1 (o : Op) (c : Cqe) : Op :=
+  match o.update ⟨c.res, c.flags⟩ with
+  | none => o
+  | some p => p.1
+
+/-- `c` is a completion that operation `i` gets to see. -/
+def addressed (i : Nat) (c : Cqe) : Bool := !fSkip c.flags && decide (c.ud = .op i)
+
+/-- The completion loop of `Ring::poll`, as `drainCq` runs it. -/
+def processAll (s : Sys) (a : Acc) (cs : List Cqe) : Sys × Acc :=
+  cs.foldl (fun (p : Sys × Acc) c => p.1.process p.2 c) (s, a)
+
+theorem process_get (s : Sys) (a : Acc) (c : Cqe) (i : Nat) :
+    (s.process a c).1.ops[i]? =
+      if addressed i c then s.ops[i]?.map (fun o => upd1 o c) else s.ops[i]? := by
+  cases hud : c.ud with
+  | reserved n =>
+    have : (s.process a c).1 = s := by
+      unfold Sys.process; split <;> simp [hud]
+    simp [this, addressed, hud]
+  | op k =>
+    rw [process_ops s a c k hud]
+    cases hs : fSkip c.flags
+    · by_cases hki : k = i
+      · subst hki
+        simp only [addressed, hs, hud, Bool.not_false, decide_true, Bool.and_self, if_true]
+        simp only [Bool.false_eq_true, if_false]
+        rw [updOps_get_self]
+        cases s.ops[k]? with
+        | none => rfl
+        | some o =>
+          simp only [Option.map, upd1]
+          cases o.update ⟨c.res, c.flags⟩ <;> rfl
+      · have : addressed i c = false := by
+          simp [addressed, hs, hud, hki]
+        simp only [this, Bool.false_eq_true, if_false]
+        exact updOps_get_ne _ k i c (Ne.symm hki)
+    · simp [addressed, hs]
+
+/-- **Any order, any batching.** After the completion loop has processed any list of completions
+— of any number of operations, interleaved in whatever order the kernel chose — the state of
+operation `i` is its state before, advanced by exactly the completions addressed to `i`, in the
+kernel's order among themselves: completions of other operations, bookkeeping completions and
+`F_SKIP` entries between them have no influence on it. -/
+theorem C02_own_completions_only (cs : List Cqe) : ∀ (s : Sys) (a : Acc) (i : Nat),
+    (processAll s a cs).1.ops[i]? =
+      s.ops[i]?.map (fun o => (cs.filter (addressed i)).foldl upd1 o) := by
+  induction cs with
+  | nil => intro s a i; simp [processAll]
+  | cons c cs ih =>
+    intro s a i
+    have hstep : processAll s a (c :: cs) = processAll (s.process a c).1 (s.process a c).2 cs := by
+      simp [processAll]
+    rw [hstep, ih, process_get]
+    cases h : addressed i c
+    · simp [List.filter, h]
+    · cases s.ops[i]? <;> simp [List.filter, h]
+
+/-- Hence two batches that give every operation the same completions in the same order — any
+permutation of the kernel's completion order that keeps each operation's own completions in
+order, split over `Ring::poll` calls in any way — leave every operation in the same state. -/
+theorem C02_batch_order_independent (cs₁ cs₂ : List Cqe) (s : Sys) (a₁ a₂ : Acc)
+    (h : ∀ i, cs₁.filter (addressed i) = cs₂.filter (addressed i)) :
+    (processAll s a₁ cs₁).1.ops = (processAll s a₂ cs₂).1.ops := by
+  apply List.ext_getElem?
+  intro i
+  rw [C02_own_completions_only, C02_own_completions_only, h i]
+
+/-- Splitting a batch over two `Ring::poll` calls changes nothing. -/
+theorem C02_batch_split (cs₁ cs₂ : List Cqe) (s : Sys) (a : Acc) :
+    processAll s a (cs₁ ++ cs₂) =
+      processAll (processAll s a cs₁).1 (processAll s a cs₁).2 cs₂ := by
+  simp [processAll, List.foldl_append]
+
+/-- Non-vacuity: a multishot and a single-shot operation, both running; the kernel's order
+`[a₁, b, a₂]` and the permutation `[b, a₁, a₂]` (own order kept) give the same states, in which the
+multishot operation holds `a₁, a₂` in that order and the single-shot one holds `b`. -/
+example :
+    let s : Sys := { ops := [{ multi := true, status := .running (.multi []) },
+                             { multi := false, status := .running (.single ⟨0, 0⟩) }] }
+    let a1 : Cqe := ⟨.op 0, 5, 2⟩
+    let a2 : Cqe := ⟨.op 0, 6, 2⟩
+    let b : Cqe := ⟨.op 1, 9, 0⟩
+    (∀ i, [a1, b, a2].filter (addressed i) = [b, a1, a2].filter (addressed i)) ∧
+    (processAll s {} [a1, b, a2]).1.ops = (processAll s {} [b, a1, a2]).1.ops ∧
+    (processAll s {} [a1, b, a2]).1.ops.map (·.status) =
+      [.running (.multi [⟨5, 2⟩, ⟨6, 2⟩]), .done (.single ⟨9, 0⟩)] := by
+  refine ⟨?_, by decide, by decide⟩
+  intro i
+  match i with
+  | 0 => decide
+  | 1 => decide
+  | n + 2 => simp [addressed]
+
+/-- `drainCq` is this loop over the queue's contents. -/
+theorem drainCq_ops (s : Sys) (a : Acc) : (s.drainCq a).1.ops = (processAll s a s.cq).1.ops := by
+  simp [Sys.drainCq, processAll]
+
 end A10.Life
 
 namespace A10.OpSys
